@@ -249,7 +249,12 @@ class FakeTime:
         self._loop = loop
 
     def time(self):
-        return EPOCH + self._loop.time() + 0.0005
+        # optional drift: every reading of the wall clock costs `drift_us` microseconds (time passes while code runs)
+        lp = self._loop
+        d = getattr(lp, 'drift_us', 0)
+        if d:
+            lp.read_offset_us = getattr(lp, 'read_offset_us', 0) + d
+        return EPOCH + lp.time() + 0.0005 + getattr(lp, 'read_offset_us', 0) / 1e6
 
     def time_ns(self):
         return int(self.time() * 1e9)
